@@ -52,7 +52,7 @@ def run_shard(tier, seed, idx, n, res, tmp):
     for ci in range(idx, b['models'], n):
         cs = common.case_seed(PROPERTY, seed, ci)
         rnd = random.Random(cs)
-        prof = gm.make_profile(cfg_style='dropbox' if ci % 2 else None,
+        prof = gm.make_profile(cfg_style='dropbox' if ci % 2 else None, p_keyword_doc=0.08,
                                route_arg_kinds=('struct', 'union', 'void', 'alias') if ci % 3 else
                                gm.DEFAULT_PROFILE['route_arg_kinds'])
         m = gm.generate(cs, prof)
